@@ -5,7 +5,14 @@ import SpecterModel.C43.Model
 `sync <tunnels> <registered> <fresh> => <tunnels after> <GenerateHostname calls> <published hostnames>`
 * list token: `_` = empty list, items separated by `,`; strings hex-encoded (`-` = empty string)
 * tunnel item `hex(target):hex(hostname)`; `<registered>` = `!` when RegisteredHostnames fails;
-  fresh item `!` = that GenerateHostname call fails. -/
+  fresh item `!` = that GenerateHostname call fails.
+
+`syncrm <tunnels> <registered> <fresh> <point> <hex hostname> <u|l> => <tunnels after> <calls> <published> <fired> <mid>`
+* the same sync, but while it waits for the RPC `<point>` (`r` = RegisteredHostnames, `g<k>` = k-th
+  GenerateHostname call, `p<k>` = k-th PublishTunnel call, 0-based) the real UnpublishTunnel (`u`) /
+  ReleaseTunnel (`l`) is called for `<hostname>` on the same client;
+* `<fired>`: `1` the removal ran, `0` the sync never made that RPC, `E` the removal returned an error;
+  `<mid>`: the live configuration right after the removal returned (`-` when it did not run). -/
 namespace Specter.C43
 open Specter.Util
 
@@ -78,6 +85,74 @@ def specCheck (ts : List Tunnel) (reg : Option (List String)) (fr : List (Option
         some "a new hostname was requested while a reusable one was left unused"
       else none
 
+def cnt (xs : List String) (x : String) : Nat := (xs.filter (· = x)).length
+
+/-- Executable reading of the property statement for a sync during which ONE tunnel (the first one
+carrying hostname `h`) was unpublished / released. Judged on the outcome only — the configuration after
+the sync, the GenerateHostname calls and the hostnames announced with PublishTunnel — and without
+prescribing whether the removed tunnel is still listed afterwards:
+* (server contracts hold) no hostname is carried by more tunnels than were configured with it (one, for
+  a name nobody was configured with), and none is announced more often than that in the one sync;
+* the list consists of the configured tunnels: none appears twice, none but the removed one is missing,
+  configured hostnames are kept;
+* new hostnames are generated or reusable ones; every tunnel with a target is named unless a request
+  failed; no request while a reusable name is left. -/
+def specCheckRm (ts : List Tunnel) (reg : Option (List String)) (fr : List (Option String)) (h : String)
+    (out : List Tunnel) (calls : Nat) (pub : List String) : Option String :=
+  let cfg := ts.map (·.host)
+  let oh := out.map (·.host)
+  let tg := fun (l : List Tunnel) (t : String) => (l.filter (·.target = t)).length
+  let rmTarget : Option String := (ts.find? (·.host = h)).map (·.target)
+  let freshNames := fr.filterMap id
+  let supplyOK := match reg with
+    | none => true     -- nothing may be assigned at all
+    | some r => decide r.Nodup && decide freshNames.Nodup && freshNames.all (fun n => !r.elem n && !cfg.elem n)
+  if supplyOK && oh.any (fun x => x ≠ "" && decide (cnt oh x > max 1 (cnt cfg x))) then
+    some "two tunnels share a hostname that was not configured on both"
+  else if supplyOK && pub.any (fun x => decide (cnt pub x > max 1 (cnt cfg x))) then
+    some "a hostname was published more than once in a single sync without being configured that often"
+  else if out.length > ts.length then some "more tunnels than configured"
+  else if out.length + 1 < ts.length then some "more than the removed tunnel disappeared"
+  else if out.any (fun t => decide (tg out t.target > tg ts t.target)) then
+    some "a tunnel appears more often than configured"
+  else if ts.any (fun t => decide (tg out t.target + (if rmTarget = some t.target then 1 else 0) < tg ts t.target)) then
+    some "a tunnel other than the removed one disappeared"
+  else if cfg.any (fun c => c ≠ "" && decide (cnt oh c + (if c = h then 1 else 0) < cnt cfg c)) then
+    some "a configured hostname was not kept"
+  else match reg with
+  | none =>
+    if out ≠ ts && !((List.range ts.length).any fun i => (ts[i]?.map (·.host)) == some h && out == ts.eraseIdx i) then
+      some "configuration changed (beyond the removal) although registered hostnames are unknown"
+    else none
+  | some r =>
+    -- names nobody is configured with (reusable in every reading) / additionally the removed tunnel's name
+    let reusable := r.filter fun x => !(x.toList.elem '.') && !cfg.elem x
+    let reusableRm := r.filter fun x => !(x.toList.elem '.') && !(cfg.erase h).elem x
+    let needyN := (ts.filter fun t => t.target ≠ "" && t.host = "").length
+    let inQ := supplyOK && fr.all (·.isSome) && decide (needyN ≤ reusable.length + fr.length)
+    let failed := calls - ((fr.take calls).filterMap id).length
+    let unnamed := (out.filter fun t => t.target ≠ "" && t.host = "").length
+    if oh.any (fun x => x ≠ "" && decide (cnt oh x > cnt cfg x) && !(reusableRm.elem x || freshNames.elem x)) then
+      some "a hostname was assigned that is neither generated nor a reusable (registered, dot-free, unused) one"
+    else if out.any (fun t => t.target = "" && t.host ≠ "" && !(ts.any fun u => u.target = "" && u.host = t.host)) then
+      some "a tunnel without target received a hostname"
+    else if inQ && out.any (fun t => t.target ≠ "" && t.host = "") then some "a tunnel with a target has no hostname"
+    else if supplyOK && decide (unnamed > failed) then
+      some "more tunnels with a target are left without hostname than hostname requests failed"
+    else if calls > 0 && reusable.any (fun a => !oh.elem a) then
+      some "a new hostname was requested while a reusable one was left unused"
+    else none
+
+def parsePoint (s : String) : Option Point :=
+  if s = "r" then some .reg
+  else match s.toList with
+    | 'g' :: k => (String.ofList k).toNat?.map .gen
+    | 'p' :: k => (String.ofList k).toNat?.map .pub
+    | _ => none
+
+def renderRm (m : ResultRm) : String :=
+  render m.res ++ " " ++ (match m.mid with | some l => "1 " ++ renderTunnels l | none => "0 -")
+
 def step (_ : Unit) (toks : List String) (rhs : String) : Unit × Verdict :=
   match toks with
   | ["reset"] => ((), .ok)
@@ -95,6 +170,24 @@ def step (_ : Unit) (toks : List String) (rhs : String) : Unit × Verdict :=
           if m ≠ rhs then ((), .diff m) else ((), .ok)
       | _, _ => ((), .bad "sync rhs")
     | _, _, _, _ => ((), .bad "sync args")
+  | ["syncrm", tsT, regT, frT, ptT, hT, kindT] =>
+    let reg? : Option (Option (List String)) :=
+      if regT = "!" then some none else (parseList hexToAscii regT).map some
+    match parseList parseTunnel tsT, reg?, parseList parseFresh frT, parsePoint ptT, hexToAscii hT, rhs.splitOn " " with
+    | some ts, some reg, some fr, some pt, some h, [outT, callsT, pubT, firedT, _midT] =>
+      if kindT ≠ "u" && kindT ≠ "l" then ((), .bad "syncrm kind") else
+      match parseList parseTunnel outT, callsT.toNat?, parseList hexToAscii pubT with
+      | some out, some calls, some pub =>
+        -- the removal ran (even one that reported an error may have had its effect): judge the
+        -- outcome of the concurrent scenario; it never ran: this was a plain sync
+        let verdict := if firedT = "0" then specCheck ts reg fr out calls else specCheckRm ts reg fr h out calls pub
+        match verdict with
+        | some why => ((), .spec why)
+        | none =>
+          let m := renderRm (syncRm ts reg fr pt h)
+          if m ≠ rhs then ((), .diff m) else ((), .ok)
+      | _, _, _ => ((), .bad "syncrm rhs")
+    | _, _, _, _, _, _ => ((), .bad "syncrm args")
   | _ => ((), .bad "unknown op")
 
 def main : IO Unit := runLoop () step
